@@ -184,6 +184,15 @@ func (m *MethodScope) resolveImportVarConflicts(imports map[string]*Package) {
 // bodyIdents are the identifiers the body of a generated method uses.
 var bodyIdents = []string{"mock", "callInfo", "nil", "append", "panic"}
 
+func isBodyIdent(name string) bool {
+	for _, ident := range bodyIdents {
+		if ident == name {
+			return true
+		}
+	}
+	return false
+}
+
 // resolveShadowing renames every variable which is named like an
 // identifier the generated method has to resolve: the identifiers of the
 // method body, the reserved names, the qualifiers of the imported
@@ -239,7 +248,8 @@ func (m *MethodScope) resolveFieldNameConflicts(fieldName func(string) string, n
 }
 
 // resolveTypeParamShadowing renames the type parameters whose name was
-// generated (blank type parameters) if it is used as package qualifier.
+// generated (blank type parameters) if it is used as package qualifier
+// or by the method bodies (a constraint named Append gives append).
 // Type parameters named in the source can not be renamed, the signatures
 // refer to them.
 func (m *MethodScope) resolveTypeParamShadowing() {
@@ -251,7 +261,7 @@ func (m *MethodScope) resolveTypeParamShadowing() {
 		for n := 1; ; n++ {
 			_, isImport := m.registry.searchImport(name)
 			other, used := m.searchVar(name)
-			if !isImport && (!used || other == v) {
+			if !isImport && !isBodyIdent(name) && (!used || other == v) {
 				break
 			}
 			name = v.Name + "MoqParam" + strconv.Itoa(n)
